@@ -334,6 +334,10 @@ func buildLayout(sc *Scn, runDirPrefix string) intoto.Layout {
 			x.ExpectedMaterials = [][]string{mm, {"DISALLOW", pre + "stamp.txt"}, {"ALLOW", "*"}}
 			x.ExpectedProducts = [][]string{mm, {"DISALLOW", pre + "stamp.txt"}, {"ALLOW", "*"}}
 		}
+		if sc.Defect == "require-on-empty-queue" {
+			x.ExpectedMaterials = [][]string{m, {"ALLOW", "*"}, {"REQUIRE", pre + "README"}}
+			x.ExpectedProducts = [][]string{{"ALLOW", "*"}}
+		}
 		if sc.Defect == "unclean-disallow-pattern-product-added" {
 			x.ExpectedMaterials = [][]string{m, {"ALLOW", "./*.link"}, {"DISALLOW", "./*"}}
 			x.ExpectedProducts = [][]string{m, {"ALLOW", "./*.link"}, {"DISALLOW", "./*"}}
@@ -692,8 +696,8 @@ var defects = map[string][]string{
 	"c06": {"sub-expired", "sub-undated", "sub-rfc3339-offset", "none", "expired-long", "expired-2s", "future-1h", "garbage", "empty", "rfc3339-offset", "date-only", "year-9999", "fraction", "lowercase"},
 	"c08": {"sub-insp-killed-by-signal", "sub-same-step-name-upper-link-missing", "sub-same-step-name-both-present", "sub-wide-9", "sub-defective-beside-good-link-large", "sub-insp-named-like-first-step", "sub-insp-named-like-last-step", "sub-defective-beside-good-link", "sub-ok", "sub-ok", "sub-badsig", "sub-expired", "sub-missing-link", "sub-rule-violation", "sub-unauthorised", "sub-nested", "sub-nested-defect", "sub-summary-mismatch", "sub-summary-mismatch-other-algorithm"},
 	"c10": {"history-same-params", "history-diff-params", "history-no-params", "history-mixed", "mixed-cert-key", "mixed-cert-key", "mixed-cert-key-unsorted", "summary-byproducts", "direct-unclean",
-		"history-empty-command-argument", "history-dir-relative-inspection-fails-midway", "mixed-cert-key-dir", "history-layout-keys-share-short-id", "history-four-links-two-groups", "history-dir-inspection-relative-command", "history-caller-intermediates-spare-capacity", "mixed-cert-key-other-step-constraint-mismatch", "history-multi-alg", "history-multi-alg-mismatch", "history-whitespace-rule", "history-param-value-has-marker", "mixed-cert-key-marker-constraint", "history-threshold-zero"},
-	"c09": {"insp-killed-by-signal", "socket-file-added", "unclean-disallow-pattern-product-added", "star-class-pattern-product-added", "dangling-symlink-added", "step-rule-fails-no-inspection-may-run", "symlinked-dir-before-tampered-product", "symlinked-dir-untouched", "product-crlf-rewritten", "product-crlf-rewritten-normalised", "large-product-tampered-tail", "large-product-untouched", "product-added-ignorable-name-0", "product-added-ignorable-name-1", "product-added-ignorable-name-2", "product-added-ignorable-name-3",
+		"history-empty-command-argument", "history-dir-relative-inspection-fails-midway", "mixed-cert-key-dir", "history-layout-keys-share-short-id", "history-four-links-two-groups", "history-dir-inspection-relative-command", "history-caller-intermediates-spare-capacity", "mixed-cert-key-other-step-constraint-mismatch", "history-two-sublayouts-same-functionary", "history-multi-alg", "history-multi-alg-mismatch", "history-whitespace-rule", "history-param-value-has-marker", "mixed-cert-key-marker-constraint", "history-threshold-zero"},
+	"c09": {"require-on-empty-queue", "insp-killed-by-signal", "socket-file-added", "unclean-disallow-pattern-product-added", "star-class-pattern-product-added", "dangling-symlink-added", "step-rule-fails-no-inspection-may-run", "symlinked-dir-before-tampered-product", "symlinked-dir-untouched", "product-crlf-rewritten", "product-crlf-rewritten-normalised", "large-product-tampered-tail", "large-product-untouched", "product-added-ignorable-name-0", "product-added-ignorable-name-1", "product-added-ignorable-name-2", "product-added-ignorable-name-3",
 		"product-added-ignorable-name-4", "product-added-ignorable-name-5", "product-added-ignorable-name-6", "product-added-ignorable-name-7",
 		"product-added-ignorable-name-8", "product-added-ignorable-name-9", "product-added-ignorable-name-10", "case-variant-rule-earlier", "product-modified-backslash-decoy", "sha512-chain-product-modified", "escaped-pattern-product-modified", "escaped-pattern-none", "insp-rewrite-same-mtime", "product-all-removed", "require-after-consume", "none", "insp-fail", "insp-fail-255", "insp-missing", "insp-empty", "product-modified", "product-added", "product-removed",
 		"insp-touch-allowed", "insp-touch-disallowed", "three-inspections", "second-fails"},
@@ -1222,6 +1226,23 @@ func genScenario(r *lib.Rng, focus string, idx int) *Scn {
 			sc.Steps[0].Threshold = 1
 			sc.Reps = 40
 			sc.History = []map[string]string{nil, nil}
+		case "history-two-sublayouts-same-functionary":
+			// two steps, each delegated to a sublayout of its own - by the SAME functionary: each step is judged by the
+			// summary of ITS sublayout, every time
+			key := pool[r.Intn(len(pool))]
+			sc.Steps = nil
+			sc.Params = nil
+			for k := 0; k < 2; k++ {
+				sub := baseScenario(r, focus, 1)
+				sub.Insps, sub.Params, sub.Entry = nil, nil, "plain"
+				sub.Owners = []string{key}
+				for j := range sub.Steps {
+					sub.Steps[j].Name = fmt.Sprintf("d%d_%d", k, j)
+				}
+				sc.Steps = append(sc.Steps, StepSpec{Name: fmt.Sprintf("delegated%d", k), Keys: []string{key}, Threshold: 1, Signers: []string{key}, Op: []string{"create", "modify"}[k], Sub: sub, SubSigner: key})
+			}
+			sc.Reps = 24
+			sc.History = []map[string]string{nil, nil}
 		case "history-caller-intermediates-spare-capacity":
 			// the layout lists a root and an intermediate CA of its own; the caller passes ONE more intermediate, as the
 			// front part of a longer array it keeps using: nothing behind the passed slice may be written
@@ -1304,6 +1325,11 @@ func genScenario(r *lib.Rng, focus string, idx int) *Scn {
 			if d == "symlinked-dir-before-tampered-product" {
 				sc.Expect = "reject"
 			}
+		case "require-on-empty-queue":
+			// REQUIRE looks at the queue: after ALLOW * consumed everything the queue is EMPTY and the required file is
+			// not in it - the rule fails (it is not skipped because nothing is left to match)
+			sc.Insps = []InspSpec{{Name: "insp0", Kind: "log"}}
+			sc.Expect = "reject"
 		case "insp-killed-by-signal":
 			// the inspection command dies from a signal: that is not "returned zero"
 			sc.Insps = []InspSpec{{Name: "insp0", Kind: "log"}, {Name: "insp1", Kind: "killed"}, {Name: "insp2", Kind: "log"}}
